@@ -945,7 +945,7 @@ def scanW (s : Nat) (_m : Metrics) (p : Pos) : Option (Tok × Pos) × Nat :=
   else if p.byte = 2 then (some (⟨1, 0⟩, ⟨3, 0, 3⟩), s)
   else (none, s)
 
-def EW : LexEnv Nat Tok := ⟨scanW, passesMask⟩
+def EW : LexEnv Nat Tok := ⟨scanW, passesMask, fun _ b => ⟨b, 0, b⟩⟩
 def mW : Metrics := ⟨.lf, 4⟩
 def RW : RunEnv := ⟨EW, [⟨97, 1, 1⟩, ⟨32, 1, 1⟩, ⟨98, 1, 1⟩]⟩
 
@@ -990,7 +990,7 @@ def scanV (s : Nat) (_m : Metrics) (p : Pos) : Option (Tok × Pos) × Nat :=
   else if p.byte = 1 then (some (⟨0, 0⟩, ⟨2, 0, 2⟩), s)
   else (none, s)
 
-def EV : LexEnv Nat Tok := ⟨scanV, passesMask⟩
+def EV : LexEnv Nat Tok := ⟨scanV, passesMask, fun _ b => ⟨b, 0, b⟩⟩
 def RV : RunEnv := ⟨EV, [⟨32, 1, 1⟩, ⟨97, 1, 1⟩]⟩
 
 theorem scanV_ok : ScanOK EV mW 2 := by
